@@ -87,10 +87,7 @@ theorem wf_invariant {a b c : H} (wa : WF a) :
 /-- T-merge_hom: the sketch of the concatenation (multiset union) of two inputs is the merge of
     their sketches. -/
 theorem merge_hom (p k : Nat) (A B : List Nat) :
-    (sketch p k A).merge (sketch p k B) = .ok (sketch p k (A ++ B)) := by
-  rw [merge_eq_ok _ _ (by simp [sketch]) (by simp [sketch, H.empty]), ← sketch_append_regs]
-  congr 1
-  apply H.ext' <;> simp [sketch]
+    (sketch p k A).merge (sketch p k B) = .ok (sketch p k (A ++ B)) := sketch_merge p k A B
 
 /-- T-merge_hom, order-free form: any insertion order of the union gives the merged sketch. -/
 theorem merge_hom_perm (p k : Nat) (A B U : List Nat) (h : U.Perm (A ++ B)) :
